@@ -180,9 +180,46 @@ def what_exp(e):
     return str(e)
 
 
-def decompress_formula(I, R):
-    """GeAffine::from_bytes: the candidate root x = u v^3 (u v^7)^((p-5)/8) with u = y^2 - 1, v = d y^2 + 1 and the two checks v x^2 -/+ u"""
-    raise Unsupported("decompression formula: needs the power (p-5)/8 as an opaque function; not implemented")
+def decompress_formula(accept_first):
+    """GeAffine::from_bytes wiring (RFC 8032 5.1.3): with u = y^2 - 1, v = d y^2 + 1 the candidate root is x = u v^3 w, where w is the
+    (p-5)/8 power of u v^7 (the power itself: fe_pow25523_chain); the two tests are v x^2 - u and v x^2 + u, the second candidate is x*sqrt(-1)."""
+    def spec(I, R):
+        install_hooks(I, R.cfg)
+        log = {"pow_arg": None, "nz": []}
+        def pow_hook(a, w, n=None):
+            x = a[0]
+            v = I.read((x.cell, x.path, x.sl))
+            log["pow_arg"] = v.p
+            return FieldV(V("w"))
+        answers = [False] if accept_first else [True, False]
+        def nz_hook(a, w, n=None):
+            x = a[0]
+            log["nz"].append(I.read((x.cell, x.path, x.sl)).p)
+            return BoolV(answers[len(log["nz"]) - 1])
+        I.hooks.append((re.compile(r"(Fe::|Fe>::)pow25523$"), pow_hook))
+        I.hooks.append((re.compile(r"Fe::is_nonzero$"), nz_hook))
+        I.hooks.append((re.compile(r"Fe::is_negative$"), lambda a, w, n=None: BoolV(False)))
+        I.hooks.append((re.compile(r"Fe::from_bytes$"), lambda a, w, n=None: FieldV(V("y"))))
+        f = I.find_fn_re(GE + r"from_bytes\(_1: &\[u8; 32\]\) -> Option<GeAffine>")
+        s_bytes = AggV([IntV(0x80, "u8") if j == 31 else IntV(0, "u8") for j in range(32)])    # sign bit set, parity false: no negation
+        out = I.run(f, [ref(s_bytes)])
+        y = V("y")
+        u = y * y - FPoly.const(1)
+        v = V("d") * y * y + FPoly.const(1)
+        v3 = v * v * v
+        v7 = v3 * v3 * v
+        rules = [(("i", "i"), FPoly.const(-1))]
+        R.fzero(log["pow_arg"] - u * v7, "decompress: the (p-5)/8 power is taken of u*v^7")
+        x0 = u * v3 * V("w")
+        R.fzero(log["nz"][0] - (v * x0 * x0 - u), "decompress: first test is v*x^2 - u")
+        if not accept_first:
+            R.fzero(log["nz"][1] - (v * x0 * x0 + u), "decompress: second test is v*x^2 + u")
+        assert out.variant == "Some"
+        aff = out.f[0]
+        want = x0 if accept_first else x0 * V("i")
+        R.fzero((aff.f[0].p - want).rewrite(rules), "decompress: x = u v^3 w%s" % ("" if accept_first else " * sqrt(-1)"))
+        R.fzero(aff.f[1].p - y, "decompress: y is the decoded y")
+    return spec
 
 
 RINGSPECS = {
@@ -261,4 +298,6 @@ def precomp_tables(I, R):
         pt = _ed_add(pt, b2)
 
 
+RINGSPECS["decompress_formula_direct"] = dict(prop=["C14", "C15"], fn=decompress_formula(True), desc="GeAffine::from_bytes candidate root and first test (vxx == u branch)")
+RINGSPECS["decompress_formula_sqrtm1"] = dict(prop=["C14", "C15"], fn=decompress_formula(False), desc="GeAffine::from_bytes second test and sqrt(-1) branch")
 RINGSPECS["precomp_tables"] = dict(prop=["C15", "C13", "C17"], fn=precomp_tables, desc="all 32x8 + 8 precomputed table entries are the stated multiples of B (ground equalities, independent Edwards arithmetic)")
